@@ -17,7 +17,10 @@ def onOff (s : String) : Bool := s == "on"
 
 def parseOp (ws : List String) : Option Op :=
   match ws with
-  | "world" :: rest => some (.world (rest.contains "a64"))
+  | "world" :: rest =>
+    -- `world dynamic|static [size] [a64]`: static arena memory of `size` bytes (default 4096)
+    let st := if rest.head? == some "static" then ((rest.filterMap String.toNat?).head?).getD 4096 else 0
+    some (.world (rest.contains "a64") st)
   | ["init"] => some (.init .x64)
   | ["init", a] => some (.init (if a == "x86" then .x86 else if a == "a64" then .a64 else .x64))
   | ["reset"] => some (.reset false)
